@@ -245,6 +245,56 @@ func c01(c *ctx) {
 			}
 		}
 	}
+	// one streaming reader decoding several headers in a row (its scratch state must not leak from
+	// one header into the next): all pairs and triples over boundary lengths, payloads discarded
+	seqLens := []int{0, 1, 125, 126, 300, 65535, 65536, 70000}
+	var seqs [][]int
+	for _, a := range seqLens {
+		for _, b := range seqLens {
+			seqs = append(seqs, []int{a, b})
+			for _, cc := range []int{0, 126, 65536} {
+				seqs = append(seqs, []int{a, b, cc})
+			}
+		}
+	}
+	for si, ls := range seqs {
+		for _, masked := range []bool{false, true} {
+			key := fmt.Sprintf("seq/%v/%v", ls, masked)
+			if !vh.Only(key) {
+				continue
+			}
+			var stream []byte
+			var hs []vh.H
+			for i, l := range ls {
+				h := vh.H{Fin: true, Rsv: (si + i) % 8, Op: 1 + (si+i)%2, Masked: masked, Mask: []int{0, 0, 0, 0}, N: uint64(l)}
+				if masked {
+					h.Mask = []int{17 + i, 34, 51 + si%200, 68}
+				}
+				h.Len = vh.Len8(h.N)
+				hs = append(hs, h)
+				stream = append(append(stream, vh.OwnEncode(h)...), make([]byte, l)...)
+			}
+			src := &vh.ChunkReader{Data: stream, Sizes: [][]int{nil, {1}, {7, 4096}}[si%3]}
+			rd := &wsutil.Reader{Source: src, SkipHeaderCheck: true}
+			var decs []decRes
+			for range ls {
+				before := src.Pos
+				h, err := rd.NextFrame()
+				d := decRes{Who: "NextFrame", Chunk: "seq", St: "ok", Err: vh.ErrClass(err), H: zeroH, Consumed: src.Pos - before}
+				if err != nil {
+					d.St = "err"
+					decs = append(decs, d)
+					break
+				}
+				d.H = fromWS(h)
+				decs = append(decs, d)
+				src.Pos += ls[len(decs)-1] // skip the payload on the transport itself, whatever the reader believes
+			}
+			out.Emit(map[string]interface{}{"k": "seq", "key": key, "hs": hs, "decs": decs}, true)
+			shapes.Add("seq/%d/%v", len(ls), masked)
+			n++
+		}
+	}
 	// ReadFrame on a truncated payload must fail
 	for _, pl := range []int{1, 125, 126, 65536} {
 		for _, cut := range []int{0, 1, pl - 1} {
